@@ -1,11 +1,170 @@
 package main
 
-import "verifharness/lib/ev"
+// Concurrent half of C09: 2-3 goroutines validate messages through one real validator whose
+// package (message/validation) is built with sync -> vsync, so every mutex / sync.Map operation
+// is a scheduling point. Every interleaving with <= B preemptions is executed; the multiset of
+// verdicts must equal that of SOME sequential order on a fresh validator, i.e. the per-message-id
+// lock makes read-check-update atomic.
 
-// Concurrent half of C09 (E2: 2–3 goroutines validating on one messageValidator under the
-// cooperative scheduler; oracle = the multiset of results equals that of some sequential order).
-// Added once the scheduler exists. It can reuse world.go (newWorld, newValidator), gen.go
-// (alphabet) and oracle.go unchanged.
-func conc(r *ev.Run, exhaustive *bool) {}
+import (
+	"fmt"
+	"sort"
+	"strings"
+	"time"
 
-func replayConc(r *ev.Run, v ev.Violation) { ev.Fatal("no concurrent replay yet") }
+	spectypes "github.com/bloxapp/ssv-spec/types"
+
+	"github.com/bloxapp/ssv/zzverif/vsched"
+
+	"verifharness/lib/dfs"
+	"verifharness/lib/ev"
+)
+
+type concScenario struct {
+	name  string
+	elems []string
+}
+
+var concScenarios = []concScenario{
+	{"same prepare twice", []string{"prepare.r1.s1.A", "prepare.r1.s1.A"}},
+	{"same prepare three times", []string{"prepare.r1.s1.A", "prepare.r1.s1.A", "prepare.r1.s1.A"}},
+	{"two proposals with different data", []string{"proposal.r1.s1.A", "proposal.r1.s1.B"}},
+	{"prepare and commit of one signer + duplicate prepare", []string{"prepare.r1.s1.A", "commit.r1.s1.A", "prepare.r1.s1.A"}},
+	{"round 1 and round 2 of one signer", []string{"prepare.r1.s1.A", "prepare.r2.s1.A"}},
+	{"two signers of one validator", []string{"prepare.r1.s1.A", "prepare.r1.s2.A", "prepare.r1.s1.A"}},
+	{"decided twice", []string{"decided.r1.s123.A", "decided.r1.s123.A"}},
+	{"prepare A and prepare B of one signer", []string{"prepare.r1.s1.A", "prepare.r1.s1.B"}},
+	{"partial signature twice", []string{"post-consensus.s1", "post-consensus.s1"}},
+	{"round-change and proposal of the leader", []string{"round-change.r2.s1.unprepared", "proposal.r2.s2.A.unprepared-justified", "round-change.r2.s1.unprepared"}},
+}
+
+func (c concScenario) pick(alpha []*elem) []*elem {
+	var out []*elem
+	for _, n := range c.elems {
+		var found *elem
+		for _, e := range alpha {
+			if e.name == n {
+				found = e
+			}
+		}
+		if found == nil {
+			return nil
+		}
+		out = append(out, found)
+	}
+	return out
+}
+
+func multiset(v []string) string {
+	s := append([]string(nil), v...)
+	sort.Strings(s)
+	return strings.Join(s, " | ")
+}
+
+func permutations(n int) [][]int {
+	if n == 1 {
+		return [][]int{{0}}
+	}
+	var out [][]int
+	for _, p := range permutations(n - 1) {
+		for pos := 0; pos <= len(p); pos++ {
+			q := append(append(append([]int{}, p[:pos]...), n-1), p[pos:]...)
+			out = append(out, q)
+		}
+	}
+	return out
+}
+
+func conc(r *ev.Run, exhaustive *bool) {
+	bound := 2
+	if r.Thorough() {
+		bound = 3
+	}
+	w := newWorld()
+	g := &gen{w: w, k7: testing7()}
+	schedules, scenarios, maxPoints := 0, 0, 0
+	outcomes := map[string]int{}
+	for ei, e := range w.eras() {
+		alpha := g.alphabet(spectypes.BNRoleAttester, e)
+		for si, sc := range concScenarios {
+			els := sc.pick(alpha)
+			if els == nil {
+				ev.Fatal("concurrent scenario %q: message not in the alphabet", sc.name)
+			}
+			at := time.Duration(0)
+			for _, el := range els {
+				if el.at > at {
+					at = el.at
+				}
+			}
+			instant := w.slotStart(w.s0).Add(at)
+			// reference: verdict multisets of all sequential orders, each on a fresh validator
+			allowed := map[string][]int{}
+			for _, p := range permutations(len(els)) {
+				s := w.newValidator(e)
+				res := make([]string, len(els))
+				for _, i := range p {
+					res[i] = els[i].name + "=>" + s.validate(els[i].topic, els[i].data, instant).verdict
+				}
+				allowed[multiset(res)] = p
+			}
+			var got []string
+			var s *sut
+			ex := &dfs.Explorer{Bound: bound, Stop: r.Expired,
+				Body: func() {
+					s = w.newValidator(e)
+					got = make([]string, len(els))
+					s.clockAt(instant)
+					for i := range els {
+						i := i
+						vsched.Go(func() {
+							got[i] = els[i].name + "=>" + s.validateNoClock(els[i].topic, els[i].data).verdict
+						})
+					}
+				},
+				Check: func(x *vsched.Execution, choices []int) {
+					ms := multiset(got)
+					outcomes[fmt.Sprintf("%s/%s: %s", e.name, sc.name, ms)]++
+					if x.Deadlock {
+						r.Violate("conc-validation-deadlock", fmt.Sprintf("concurrent validation deadlocked (%v) in scenario %q", x.Blocked, sc.name), "c09-conc",
+							map[string]interface{}{"era": ei, "scenario": si, "choices": choices}, ms, nil)
+						return
+					}
+					if _, ok := allowed[ms]; !ok {
+						var al []string
+						for k := range allowed {
+							al = append(al, k)
+						}
+						sort.Strings(al)
+						r.Violate("conc-validation-not-serialisable "+sc.name, fmt.Sprintf("concurrent validation of [%s] (%s) gave verdicts {%s}, which no sequential order produces", strings.Join(sc.elems, ", "), e.name, ms), "c09-conc",
+							map[string]interface{}{"era": ei, "scenario": si, "choices": choices}, ms, al)
+					}
+				}}
+			ex.Explore()
+			schedules += ex.Executions
+			if ex.MaxPoints > maxPoints {
+				maxPoints = ex.MaxPoints
+			}
+			if ex.EngineErr != "" {
+				ev.Fatal("scheduler: %s (scenario %s)", ex.EngineErr, sc.name)
+			}
+			if ex.Capped {
+				*exhaustive = false
+				r.CapHit("deadline in the concurrent scenarios")
+				break
+			}
+			scenarios++
+		}
+	}
+	r.Add("evaluations", schedules)
+	r.Set("concurrent_scenarios", scenarios)
+	r.Set("concurrent_schedules", schedules)
+	r.Set("concurrent_preemption_bound", bound)
+	r.Set("concurrent_max_choice_points", maxPoints)
+	r.Set("concurrent_outcomes", outcomes)
+	r.Assume("concurrent half: message/validation built with sync -> vsync (every Mutex/RWMutex/sync.Map operation is a scheduling point), 2-3 validating goroutines, preemption-bounded; verdict multiset must match a sequential order on a fresh validator")
+}
+
+func replayConc(r *ev.Run, v ev.Violation) {
+	ev.Fatal("concurrent artefacts: re-run the check with the recorded scenario (choices are listed in the artefact)")
+}
